@@ -495,6 +495,10 @@ def main():
             bitems.append((4, list(grid), phys4, 3 if quick else 4))
     for p in ([2, 3] if quick else [2, 3, 4]):
         bitems.append((2, [p], {'L01': [0, 1], 'L10': [1, 0]}, 6))
+    # directly connected pairs that differ by a cyclic relabelling (one distributed direction)
+    for p in ([2] if quick else [2, 3]):
+        bitems.append((3, [p], {'A': [0, 1, 2], 'B': [1, 2, 0]}, 5))
+        bitems.append((3, [p], {'A': [0, 1, 2], 'B': [2, 0, 1], 'C': [0, 2, 1]}, 5))
     for r in H.pmap(buffer_item, bitems, run.args.jobs):
         run.merge(r)
     run.sections['buffer'] = dict(configs=len(bitems), N=N)
